@@ -109,6 +109,11 @@ def r1_pairing(ctx):
             stage = tb[2]
         seen[side] = (cname, stage)
     ok = set(seen) == {"white", "black"} and all(v[0] for v in seen.values())
+    if not seen or None in seen or not all(v[0] for v in seen.values()):
+        # the two players / the tables are not named directly in piece_square_value (a helper takes them, a stage
+        # enum selects the table): not read here
+        ctx.lost(rid, "piece_square_value: the player and the named table of each of its two evaluations")
+        return
     ctx.ob(rid, "both-players", ok, "" if ok else "piece_square_value does not evaluate exactly board.white and board.black against named tables: %s" % {k: (v[0], show(v[1]) if v[1] else None) for k, v in seen.items()}, ctx.where(f))
     if not ok:
         return
